@@ -193,6 +193,7 @@ def fixpoint(spec):
 
 class C06(Property):
     id = "C06"
+    anchors = ('finam.tools.connect_helper:ConnectHelper.connect', 'finam.schedule:Composition._connect_components', 'finam.tools.connect_helper:ConnectHelper._push_data')
     technique = "least-fixpoint reference model of the connect protocol vs the real iterative connect(): outcome, stuck set, per-call status vs growth of exchanged items, iteration cap; offset compositions for the double initial publication"
     rule = (
         "protocol cases: 2-6 ConnectNode components, 0-2 outputs each, 1-2 targets per output, initial pulls, info transfers input->output "
